@@ -199,7 +199,12 @@ package channel
 //@ secret [C11] transport.InChannelAuthData.Password readers (*Channel).Open
 //@ secret [C11] transport.InChannelAuthData.PrivateKeyPassPhrase readers (*Channel).Open
 //@ chanmode (*Channel).sendInteractive:cr count
+// dlg: ghost - everything the dialogue reads (echo waits and response waits), in order
+//@ ghost dlg []byte local
 //@ func (*Channel).sendInteractive [C12 C11 C06]
+//@   after call dyn#1 set dlg = dlg ++ result.0
+//@   after call ReadUntilAnyPrompt#1 set dlg = dlg ++ result.0
+//@   at call! processOut#1 assert [C12] #the-result-is-the-whole-dialogue-with-the-prompt-kept dlg == old(dlg) ++ arg0 && !arg1
 //@   requires RI(c.Q) && c.PromptSearchDepth >= 0 && (forall k int :: 0 <= k && k < len(events) ==> events[k] != nil)
 //@   requires cr != nil && !closed(cr) && cr != c.Q.depthChan
 //@   chaninv cr v => v != nil && RI(c.Q)
@@ -211,9 +216,9 @@ package channel
 //@   at call dyn#1 assert #hidden-inputs-not-awaited e.ChannelResponse != "" && !e.HideInput
 //@   flows [C11] #event-input-goes-only-to-write-and-the-echo-wait e.ChannelInput only to Write#1.arg0, dyn#1.arg1
 //@   at call! ReadUntilAnyPrompt#1 assert #waits-for-the-expected-response-or-else-the-prompt arg1 === op.CompletePatterns ++ refs(e.ChannelResponse != "" ? compiled(e.ChannelResponse) : c.PromptPattern)
-//@   loop 1 invariant rangeindex < len(events) && RI(c.Q) && chlen(cr) == old(chlen(cr))
+//@   loop 1 invariant rangeindex < len(events) && RI(c.Q) && chlen(cr) == old(chlen(cr)) && dlg == old(dlg) ++ b
 //@   loop 1 invariant rangeindex >= 0 ==> quiet && i == rangeindex && (len(op.CompletePatterns) > 0 && rangeindex < len(events) - 1 ==> noneMatches(op.CompletePatterns, pb))
-//@   loop 2 invariant rangeindex#2 < len(op.CompletePatterns) && RI(c.Q) && chlen(cr) == old(chlen(cr)) && quiet && i == rangeindex && i < len(events) - 1
+//@   loop 2 invariant rangeindex#2 < len(op.CompletePatterns) && RI(c.Q) && chlen(cr) == old(chlen(cr)) && quiet && i == rangeindex && i < len(events) - 1 && dlg == old(dlg) ++ b
 //@   loop 2 invariant !done && (forall k int :: 0 <= k && k <= rangeindex#2 ==> !reMatch(op.CompletePatterns[k], pb))
 
 // ---- C10: in-channel login ---------------------------------------------------------------------------------------------------
